@@ -51,7 +51,7 @@ pub fn outer_overlay(b: &Built) -> Option<(usize, String)> {
     let mut prefix = String::new();
     loop {
         match cfg {
-            Cfg::Ovl(_) => return Some((id, prefix)),
+            Cfg::Ovl(_) | Cfg::OvlShared(..) => return Some((id, prefix)),
             Cfg::Alt(inner, base) => {
                 // top path q maps to inner path base+q
                 prefix = format!("{}{}", base, prefix);
